@@ -9,7 +9,14 @@ type argumentsObject struct {
 
 type mappedProperty struct {
 	valueProperty
-	v *Value
+	// The parameter lives in slot idx of the function's stash. (Not a pointer to the slot: a sloppy direct eval
+	// that declares a var appends to stash.values and may move them.)
+	stash *stash
+	idx   int
+}
+
+func (m *mappedProperty) ptr() *Value {
+	return &m.stash.values[m.idx]
 }
 
 func (a *argumentsObject) getStr(name unistring.String, receiver Value) Value {
@@ -19,10 +26,10 @@ func (a *argumentsObject) getStr(name unistring.String, receiver Value) Value {
 func (a *argumentsObject) getOwnPropStr(name unistring.String) Value {
 	if mapped, ok := a.values[name].(*mappedProperty); ok {
 		if mapped.writable && mapped.enumerable && mapped.configurable {
-			return *mapped.v
+			return *mapped.ptr()
 		}
 		return &valueProperty{
-			value:        *mapped.v,
+			value:        *mapped.ptr(),
 			writable:     mapped.writable,
 			configurable: mapped.configurable,
 			enumerable:   mapped.enumerable,
@@ -43,7 +50,7 @@ func (a *argumentsObject) setOwnStr(name unistring.String, val Value, throw bool
 			a.val.runtime.typeErrorResult(throw, "Property is not writable: %s", name)
 			return false
 		}
-		*prop.v = val
+		*prop.ptr() = val
 		return true
 	}
 	return a.baseObject.setOwnStr(name, val, throw)
@@ -77,7 +84,7 @@ func (i *argumentsPropIter) next() (propIterItem, iterNextFunc) {
 	}
 	if prop, ok := item.value.(*mappedProperty); ok {
 		if prop.writable && prop.enumerable && prop.configurable {
-			item.value = *prop.v
+			item.value = *prop.ptr()
 		} else {
 			// the attributes are not the default ones: let the consumer go through [[GetOwnProperty]]
 			item.value = nil
@@ -124,7 +131,7 @@ func (a *argumentsObject) defineOwnPropertyStr(name unistring.String, descr Prop
 			configurable: mapped.configurable,
 			writable:     true,
 			enumerable:   mapped.enumerable,
-			value:        *mapped.v,
+			value:        *mapped.ptr(),
 		}
 
 		val, ok := a.baseObject._defineOwnProperty(name, existing, descr, throw)
@@ -134,7 +141,7 @@ func (a *argumentsObject) defineOwnPropertyStr(name unistring.String, descr Prop
 
 		if prop, ok := val.(*valueProperty); ok {
 			if !prop.accessor {
-				*mapped.v = prop.value
+				*mapped.ptr() = prop.value
 			}
 			if prop.accessor || !prop.writable {
 				a._put(name, prop)
@@ -143,7 +150,7 @@ func (a *argumentsObject) defineOwnPropertyStr(name unistring.String, descr Prop
 			mapped.configurable = prop.configurable
 			mapped.enumerable = prop.enumerable
 		} else {
-			*mapped.v = val
+			*mapped.ptr() = val
 			mapped.configurable = true
 			mapped.enumerable = true
 		}
